@@ -213,6 +213,7 @@ def main():
     oracle = {"evaluations": 0, "distinct_nontrivial": 0, "violations": [], "samples": [],
               "histogram": {}, "cases": 0, "notes": {}}
     disagreements = []
+    model_skipped = 0
     rc, out = build_harness()
     if rc != 0:
         broken.append(("harness-build", "the harness does not build against /repo's working tree:\n" + out[-3000:]))
@@ -260,6 +261,9 @@ def main():
                 if len(f) != 3:
                     continue
                 nlive += 1
+                if f[2].endswith("model-stack-overflow") or f[2].endswith("model-oom"):
+                    model_skipped += 1   # resource limit of the extracted model, not a verdict
+                    continue
                 if f[1] != f[2]:
                     disagreements.append({"case": f[0][:4000], "impl": f[1][:4000], "model": f[2][:4000]})
         if os.path.exists(cases) and any(not l.startswith("#") for l in open(cases)):
@@ -274,6 +278,9 @@ def main():
                 if len(impl) != len(model):
                     broken.append(("model-run", "model produced %d observations for %d cases" % (len(model), len(impl))))
                 for i, (x, y) in enumerate(zip(impl, model)):
+                    if y.endswith("model-stack-overflow") or y.endswith("model-oom"):
+                        model_skipped += 1
+                        continue
                     if x != y:
                         disagreements.append({"case": cl[i][:4000], "impl": x[:4000], "model": y[:4000]})
     oracle["violations"] = oracle.get("violations") or []
@@ -350,6 +357,7 @@ def main():
             "samples": (oracle.get("samples") or [])[:8] or [{"theorem": t} for t in theorems[:4]],
             "correspondence_cases": int(oracle.get("cases", 0)),
             "correspondence_disagreements": len(disagreements),
+            "correspondence_model_skipped": model_skipped,
             "table_lemmas": ntables,
             "input_distribution": oracle.get("histogram", {}),
             "explanation": cfg["explanation"],
